@@ -268,6 +268,11 @@ def render_field(rng, key, ls, plain=False):
 RAW = "\x00raw:"
 COMMENTS = ["# comment\n", "#\n", "# Source: not a field\n", "#x: y\n"]
 FOREIGN = ["X-Foreign", "Zz", "Homepage-2", "x-other"]
+CONFUSING = {"debian_control_lossy_Binary": ["Source"],
+             "debian_copyright_lossy_Header": ["Files", "License", "Copyright"],
+             "debian_copyright_lossy_FilesParagraph": ["Format"],
+             "debian_copyright_lossy_LicenseParagraph": ["Format", "Copyright"],
+             "dep3_lossy_PatchHeader": ["From", "Subject"]}
 
 def para_text(rng, fields, plain=False):
     """fields: [(key, lines)]"""
@@ -316,6 +321,16 @@ def gen_para(rng, kind, st, p_opt=None, drop=None, bad=None, shuffle=True, forei
         rng.shuffle(fields)
     if foreign and rng.random() < 0.25:
         fields.insert(rng.randrange(len(fields) + 1), (rng.choice(FOREIGN), [rng.choice(["foreign", "x y"])]))
+    # fields that belong to ANOTHER role of the kind: the role is decided by the distinguishing field
+    # that is looked at first (Package before Source; Files before License; the header by position)
+    confusing = CONFUSING.get(st["id"])
+    if foreign and confusing and rng.random() < 0.15:
+        ck = rng.choice(confusing)
+        fields.insert(rng.randrange(len(fields) + 1), (ck, ["other-role"]))
+        for other in role_structs(kind).values():       # the paragraph may now be read as that role
+            for g in other["fields"]:
+                if g["key"] == ck and g["de"].startswith("DExt"):
+                    uses.append((int(g["de"].split()[1]), "other-role"))
     return fields, uses
 
 def role_structs(kind):
@@ -350,7 +365,7 @@ def case(cid, kind, text, uses, wf):
 
 def wf_cases(tier, rng, prefix="w"):
     reset()
-    per = {"quick": 260, "search": 500, "thorough": 22000}[tier]
+    per = {"quick": 1200, "search": 2500, "thorough": 80000}[tier]
     cases = []
     for kind in KINDS:
         for j in range(per):
@@ -379,7 +394,7 @@ def corrupt(rng, paras, ext_keys):
 
 def malformed_cases(tier, rng, prefix="m"):
     reset()
-    per = {"quick": 110, "search": 250, "thorough": 6000}[tier]
+    per = {"quick": 440, "search": 900, "thorough": 22000}[tier]
     cases = []
     def add(kind, text, uses):
         cases.append(case(f"{prefix}{len(cases)}", kind, text, uses, False))
